@@ -475,6 +475,11 @@ def compile_ast(
         df = df.select(*left_col_names)
         right_df = right_df.select(*left_col_names)
 
+        # polars only stacks frames with equal schemas: cast both to the common types
+        common_schema = pl.concat([df.head(0), right_df.head(0)], how="vertical_relaxed").collect_schema()
+        df = df.cast(dict(common_schema))
+        right_df = right_df.cast(dict(common_schema))
+
         # Use pl.union if available (Polars >= 1.35), otherwise use pl.concat
         # pl.union is faster than pl.concat for union operations
         # distinct=True means UNION (remove duplicates), distinct=False means UNION ALL (keep duplicates)
